@@ -61,4 +61,58 @@ theorem resolveAll_storeOn (rep : Rep.R) (seqs : List Seq) (h0 : 1 ≤ rep.r0) (
     simp only [storeOn, List.map_cons, trisOf, SeqRT.resolveAll, l1]
     exact ⟨by rw [i1], i2⟩
 
+/-! ### ZSTD_mergeBlockDelimiters (Model/SeqApi.lean: `mergeGo`) -/
+
+/-- nothing is lost: the bytes described by the merged list plus the literals left over at the end are the bytes described by the input
+(plus what was carried in) - whatever the number of delimiters in a row -/
+theorem mergeGo_total (c : Nat) (l : List Seq) : total (mergeGo c l).1 + (mergeGo c l).2 = c + total l := by
+  induction l generalizing c with
+  | nil => simp [mergeGo, total]
+  | cons s rest ih =>
+    unfold mergeGo
+    split
+    · rename_i h
+      have hm : s.ml = 0 := by
+        simp only [isDelim, Bool.and_eq_true, beq_iff_eq] at h
+        exact h.2
+      rw [ih (c + s.ll)]
+      simp only [total, hm]
+      omega
+    · have := ih 0
+      simp only [total]
+      omega
+
+/-- no delimiter survives the merge -/
+theorem mergeGo_noDelim (c : Nat) (l : List Seq) : ∀ s ∈ (mergeGo c l).1, isDelim s = false := by
+  induction l generalizing c with
+  | nil => simp [mergeGo]
+  | cons a rest ih =>
+    unfold mergeGo
+    split
+    · exact ih (c + a.ll)
+    · rename_i h
+      intro s hs
+      simp only [List.mem_cons] at hs
+      cases hs with
+      | inl e =>
+        subst e
+        simp only [isDelim] at h ⊢
+        simpa using h
+      | inr e => exact ih 0 s e
+
+/-- offsets and match lengths of the real sequences are untouched, in order -/
+theorem mergeGo_matches (c : Nat) (l : List Seq) :
+    (mergeGo c l).1.map (fun s => (s.offset, s.ml)) = (l.filter (fun s => !isDelim s)).map (fun s => (s.offset, s.ml)) := by
+  induction l generalizing c with
+  | nil => simp [mergeGo]
+  | cons a rest ih =>
+    unfold mergeGo
+    split
+    · rename_i h
+      rw [ih (c + a.ll)]
+      simp [List.filter, h]
+    · rename_i h
+      simp only [List.map_cons, ih 0]
+      simp [List.filter, h]
+
 end ZstdVerif.SeqApiRep
